@@ -286,6 +286,14 @@ func (p *poller) readWriteLoop() {
 					if ev.Events&epollEventsRead != 0 {
 						if g.onRead == nil {
 							if asyncReadEnabled {
+								// peer shutdown reported together with input: closing here
+								// would race with (and usually beat) the read task, which
+								// would then drop the input. Let the task close instead.
+								if ev.Events&epollEventsError != 0 &&
+									ev.Events&(syscall.EPOLLERR|syscall.EPOLLHUP) == 0 {
+									c.deferCloseToReadTask()
+									readPending = true
+								}
 								c.AsyncRead()
 							} else {
 								i := 0
@@ -329,7 +337,7 @@ func (p *poller) readWriteLoop() {
 						// The peer has shut down its side, but what it sent before
 						// has not been read completely yet. Level-triggered epoll
 						// reports the fd again: read the rest first, close then.
-						if readPending && g.EpollMod == EPOLLLT &&
+						if readPending && (g.EpollMod == EPOLLLT || asyncReadEnabled) &&
 							ev.Events&(syscall.EPOLLERR|syscall.EPOLLHUP) == 0 {
 							continue
 						}
